@@ -18,13 +18,18 @@ RULE = ("random definition trees (depth<=8, arbitrary branching, dotted names, i
         "follow csv rules (backslashes and apostrophes literal, \"...\" fields with doubled quotes, text after a closing quote); "
         "a same-base stream parses two texts from ONE base environment (two parsers on one Environment, or one parser with a "
         "second add_string), the first ending inside groups, the second indented as a whole: each result is what the text "
-        "alone gives; every literal form: bool, int, float in "
+        "alone gives; 20% of the trees are parsed as a chain of two parses on one environment (the later text may restate "
+        "nodes of the earlier one) and 20% are read from a scratch FILE with add_file (leading/trailing empty lines, first "
+        "non-empty line possibly indented) — same expectation as add_string; results are read from the ORDERED node list, so "
+        "a parameter listed twice is visible; every literal form: bool, int, float in "
         "decimal/scientific notation, bare/quoted/escaped strings, none, inline/quoted/block arrays, block strings, "
         "tables) rendered to DIP text; plus flat line sequences with arbitrary indentation numbers; plus a malformed "
         "stream (impl vs model only). non-trivial = depth>=2 or a de-indent by >=2 levels or an array/block/table; "
         "distinct = the text")
 ASSUMPTIONS = [
     "text is ASCII; white space inside lines is the blank character; names match [a-zA-Z0-9_.-]+",
+    "remote sources ($source, imports from files) are C17's subject; add_file itself is exercised because SourceNode reads "
+    ".dip sources through it",
     "comments and strings do not contain the triple quote, the marks $@00..$@02, or a backslash other than \\' and \\\" "
     "(block strings and table cells may contain backslashes, but not directly before a quote character and not at the "
     "end of the last block line, where it would escape the closing quotes); "
@@ -95,13 +100,22 @@ def read_env(env):
     names = {BooleanType: "bool", IntegerType: "int", FloatType: "float", StringType: "str"}
     if list(ty.keys()) != list(tu.keys()):
         return "err:keys"
-    for k, v in ty.items():
+    # the ORDERED node list is the observable: a dict would hide a parameter that is listed twice
+    listed = [(n.name, n.value) for n in env.nodes]
+    if [k for k, _ in listed] != list(ty.keys()):
+        ty_items = listed            # duplicates (or another order) stay visible
+        tu = None
+    else:
+        ty_items = list(ty.items())
+    for k, v in ty_items:
+        if v is None:
+            return "envbroken"
         cls = names.get(type(v))
         if cls is None:
             return "err:class %s" % type(v).__name__
         unit = v.unit
         # Format.TUPLE must show the same value and unit
-        if isinstance(v, NumberType) and unit is not None:
+        if tu is not None and isinstance(v, NumberType) and unit is not None:
             if not (isinstance(tu[k], tuple) and len(tu[k]) == 2 and tu[k][1] == unit):
                 return "err:tuple"
         prec = getattr(v, "precision", None) if cls in ("int", "float") else None
@@ -914,13 +928,86 @@ def tree_case(ctx, rng):
     ctx.count("tree.maxdepth.%d" % max(depths))
     if deind:
         ctx.count("tree.multi-level-deindent")
+    variant = rng.random()
+    extra = {}
+    if variant < 0.2 and len(lines) >= 2:
+        # the same program as a chain of two parses on one environment (the second text may restate nodes of the
+        # first, typed or untyped): one parameter per node, in order of first appearance, also across parses
+        cut = rng.randrange(1, len(lines))
+        t1 = render(rng, lines[:cut], preamble=UNIT_PREAMBLE)
+        t2 = render(rng, lines[cut:], preamble=None)
+        text = t1 + "\n" + t2
+        extra = {"impl": impl_run_chain([t1, t2]), "context": {"variant": "chain of two parses", "stages": [t1, t2]}}
+        ctx.count("tree.chain-of-two-parses")
+    elif variant < 0.4:
+        # the text is read from a FILE (add_file strips leading/trailing empty lines like add_string does); no
+        # preamble, so that the first non-empty line may be an indented one
+        text = rng.choice(["", "\n", "  \n\n"]) + render(rng, lines, preamble=None) + rng.choice(["", "\n", "\n   \n"])
+        lj = spec_lines(lines, None)
+        extra = {"impl": impl_run_file(text), "preamble": None, "context": {"variant": "add_file"}}
+        ctx.count("tree.add_file")
+        if lines and lines[0].indent > 0:
+            ctx.count("tree.add_file.first-line-indented")
     for l in lines:
         ctx.count("line." + l.kind)
         if l.kind == "rewrite":
             ctx.count("rewrite." + ("typed" if l.payload[1] else "untyped"))
             if l.payload[5] is not None or l.payload[4] not in (None, 32, 64):
                 ctx.count("rewrite.nondefault-width-or-sign")
-    return run_case(ctx, "tree", text, lj, expected, units_in(lj) | {"m"}, nontriv)
+    c = run_case(ctx, "tree", text, lj, expected, units_in(lj) | {"m"}, nontriv)
+    if extra.get("preamble", 0) is None:
+        c["preamble"] = None
+        # without the $unit line the custom unit does not exist: the generator's expectation does not apply
+        if any("[len]" == u for u in c["units"]):
+            c["expected"] = None
+    for k in ("impl", "context"):
+        if k in extra:
+            c[k] = extra[k]
+    return c
+
+
+_scratch = {}
+
+
+def scratch_dir():
+    import atexit, shutil, tempfile
+    if "d" not in _scratch:
+        _scratch["d"] = tempfile.mkdtemp(prefix="verif_c13_")
+        atexit.register(shutil.rmtree, _scratch["d"], True)
+    return _scratch["d"]
+
+
+def impl_run_file(text):
+    """the text written to a scratch file and read with DIP.add_file"""
+    import os
+    from scinumtools.dip import DIP
+    _scratch["n"] = _scratch.get("n", 0) + 1
+    path = os.path.join(scratch_dir(), "t%d.dip" % _scratch["n"])
+    with open(path, "w") as f:
+        f.write(text)
+    try:
+        with DIP() as p:
+            p.add_file(path)
+            env = p.parse()
+    except Exception:
+        return "err"
+    finally:
+        os.unlink(path)
+    return read_env(env)
+
+
+def impl_run_chain(texts):
+    from scinumtools.dip import DIP
+    env, keep = None, []
+    try:
+        for t in texts:
+            p = DIP(env) if env is not None else DIP()
+            keep.append(p)
+            p.add_string(t)
+            env = p.parse()
+    except Exception:
+        return "err"
+    return read_env(env)
 
 
 def flat_case(ctx, rng):
